@@ -3,6 +3,7 @@ SPECIFICATION Spec
 CONSTANTS
   Coords = {c0, c1, c2, c3}
   K = 1
+  Ks = {}
   Callers = {p1, p2}
   Heights = {h1, h2}
   NoCaller = NoCaller
